@@ -610,6 +610,14 @@ def directed():
             sc.actor("j%d" % i, [("join", "@v%d" % (5 - i), -1), ("lock", m), ("sleep", 1), ("unlock", m)], host=i + 1)
     mk("same-date-killtime-joiners", same_date_killtime)
 
+    def returning_pending(sc):    # several actors return in the same round, each with a communication in flight
+        m = sc.mutex()
+        for i in range(6):
+            mb = sc.new("mbox")
+            sc.actor("a%d" % i, [("puta", 0, mb, 10 ** 9), ("sleepu", 5)], host=i)
+            sc.actor("p%d" % i, [("get", mb), ("lock", m), ("sleep", 1), ("unlock", m)], host=i + 1)
+    mk("same-round-returns-with-comms-in-flight", returning_pending)
+
     def sleepers_mutex(sc):
         m = sc.mutex()
         for i in range(8):
